@@ -79,3 +79,62 @@ CLAIMS['C17'] = dict(category='exploration', ref='8 C17',
          "ordering. Lean model of writeMessage as a small-step concurrent program under wmu (Model/WriteLock.lean); theorems (packets_atomic for all "
          "schedules, per-publisher order on the broker model) under construction.",
     technique="Lean 4 small-step model of the write lock + concurrent differential runs; proofs in progress")
+
+_PARTIAL_SCHED = (" PARTIAL: theorems are about the sequential model (one event = one atomic step); real interleavings inside one event are represented only "
+                  "by the order of events, and that atomicity rests on the lock discipline (C18). Topic arguments of the trie-level statements carry the "
+                  "decidable hypothesis `good` (no empty level, no '$'-led level): exactly the open findings B3/B4, whose full statements are kept "
+                  "beside proved counterexamples and whose witnesses are replayed on the real code on every run.")
+CLAIMS['C01'] = dict(category='proof', ref='5 Core E, 8 C01', text=_BROKER_TEXT % (
+    "Theorems (9): exact ordered outputs of the fan-out loop incl. the in-place message mutation (C01_fanout_char, C01_fanout_ids); onPublish delivers to "
+    "exactly one copy per trie entry whose filter matches under section 4.7, at min(publish QoS, granted QoS), same topic, identical payload, and to "
+    "nobody else (C01_publish_reaches_matching_partial, _reachable_partial without the liveness hypothesis, C01_publish_held_partial / "
+    "C01_nobody_else_partial in terms of the reference broker's held list); after any history (C01_after_history_partial); after a connection end "
+    "nothing is forwarded to it (C01_connection_end_partial); B3 counterexample (C01_publish_held_full_counterexample).") + _PARTIAL_SCHED +
+    " Not carried through: the held-list abstraction across CONNECT of a resumed session and connection end (stated at trie level instead).")
+CLAIMS['C07'] = dict(category='proof', ref='5 Core E, 8 C07', text=_BROKER_TEXT % (
+    "Theorems (15): exactly one SUBACK, first, same id, one code per filter in request order = min(requested, maximum) or 0x80, everything after it is a "
+    "PUBLISH to the subscriber (C07_suback_shape); codes equal the reference broker's for good filters (C07_codes_spec_partial; B4 counterexample); "
+    "UNSUBSCRIBE answered by exactly one UNSUBACK (C07_unsuback); effect on the trie, other subscribers untouched (C07_subscribe_effect, "
+    "C07_unsubscribe_effect, C07_granted_is_held); a matching PUBLISH accepted after the SUBACK is forwarded, none after the UNSUBACK "
+    "(C07_effective_after_suback_partial, C07_none_after_unsuback_partial); the held list of the reference broker is maintained (C07_held_refines_partial, "
+    "_srv_partial; B3 counterexample); regenerated maximum QoS = specification's (C07_facts_maxQos); invariant preserved by every step (C07_inv_step/_run).") + _PARTIAL_SCHED)
+CLAIMS['C08'] = dict(category='proof', ref='5 Core E, 8 C08', text=_BROKER_TEXT % (
+    "Theorems (18): every PUBLISH forwarded by onPublish/fanout (any step other than a SUBSCRIBE) to a connection carries RETAIN=0 "
+    "(C08_forward_retain_zero, C08_fanout_retain_zero, C08_step_retain_zero); E10 callback counterexample as a closed term; the retain step stores / "
+    "replaces / clears exactly that topic (C08_retain_step_partial, C08_one_per_topic_partial, C08_other_topics_untouched_partial, C08_retained_untouched); "
+    "the store is the last non-empty retained publish per topic (C08_spec_most_recent, C08_retain_refines_partial, C08_history_partial); after the SUBACK, "
+    "per granted filter in request order, exactly the stored messages matching it, RETAIN=1, QoS min(stored, granted), payload as stored "
+    "(C08_subscribe_delivers_retained, _partial, C08_subscribe_retained_spec_partial), same for in-process subscribers (C08_srvSub_*); B3 counterexamples.") + _PARTIAL_SCHED +
+    " Byte identity of payloads across ring reuse and retained updates concurrent to subscriptions are memory/race facts outside the pure model (correspondence / C18).")
+CLAIMS['C09'] = dict(category='proof', ref='5 Core E, 8 C09', text=_BROKER_TEXT % (
+    "Theorems (18): DISCONNECT emits only the close, nothing is published, later events for the connection are silent (C09_disconnect_no_will, "
+    "C09_disconnect_after_history); an abnormal end emits the close followed by exactly the fan-out of the will, once (C09_will_published_once, "
+    "C09_no_will_no_publish, C09_stopBase); after an accepted CONNECT, fresh or resumed, the session's will is THIS CONNECT's (topic, payload, QoS, "
+    "retain) (C09_will_is_current_connect, C09_initWill_fields, C09_current_will_published, C09_will_of_own_connect over quiet histories); no other event "
+    "reads a will (C09_only_stop_reads_will, C09_stop_reads_will_only_with_flag, C09_will_kept_step); invariant (C09_inv).") + _PARTIAL_SCHED +
+    " Keep-alive expiry as a cause is an event of the model; its timing is C19. With two live connections under one client id the will statement is false of the code (hypothesis `quiet`).")
+CLAIMS['C10'] = dict(category='proof', ref='5 Core E, 8 C10', text=_BROKER_TEXT % (
+    "Theorems (15): SessionPresent=1 iff CleanSession=0, non-empty id and the store holds a session kept from a CleanSession=0 connection "
+    "(C10_session_present); a clean CONNECT starts from a fresh empty session, tries unchanged (C10_clean_starts_empty); after a clean session ends the "
+    "store no longer maps its id (C10_clean_discarded), a persistent one stays with its topics and open QoS 2 exchanges (C10_persistent_kept); on resume the "
+    "topic store is the re-subscription of the kept list and every kept entry answers the subscriber lookup for matching names (C10_resume_resubscribes, "
+    "C10_resume_trie via C06 smatch_char); a CONNECT under id X changes neither store entry nor session of Y != X (C10_keyed_by_id); trie well-formed in "
+    "every reachable state (C10_trie_wf_reachable); regenerated constants = specification's (C10_facts).") + _PARTIAL_SCHED +
+    " Overlapping client ids (two live connections, no take-over) are left open by the specification from the overlapping CONNECT on.")
+CLAIMS['C11'] = dict(category='proof', ref='5 Core E, 8 C11', text=_BROKER_TEXT % (
+    "Theorems (14): CONNACK 0 is emitted exactly when the reference refusal list is empty; otherwise the state is unchanged and the answer is a silent close "
+    "with 'malformed' among the reasons or a code k!=0 with k among them (C11_table, C11_accept_iff, C11_checks_are_spec); precedence of the code's checks "
+    "(C11_precedence_*); exactly one CONNACK for a CONNECT that passes the flag checks, none otherwise (C11_one_connack, C11_not_connect); a refused first "
+    "packet and any further events on a connection that was never accepted leave the state unchanged and address only that connection "
+    "(C11_refused_no_effect, C11_unaccepted_no_effect, C11_dead_noop); regenerated protocol versions = specification's (C11_facts_versions).") +
+    " PARTIAL: first packets are decoded CONNECT field records or typed 'other'/'garbage'; byte-level truncations of CONNECT are C04/C05 (codec model).")
+CLAIMS['C17'] = dict(category='proof', ref='5 Core F, 8 C17',
+    text="Lean small-step model of writeMessage under wmu (any number of writers, all schedules): the consumer-visible stream is always the concatenation of whole "
+         "packets in commit order, each writer's packets in its own order, nothing lost or duplicated (C17_packets_atomic, C17_packets_whole, C17_packets_complete, "
+         "C17_critical_section); without the mutex two writers reserve the same bytes (C17_unlocked_counterexample); no deadlock inside the critical section and a "
+         "termination measure (C17_progress, C17_quiescent_delivered, C17_progress_measure). On the sequential broker model: the stream to a subscriber is the "
+         "concatenation of per-event sends; a publisher's QoS 0/1 messages are delivered in publish order and QoS 2 hand-overs in exchange-opening order "
+         "(C17_stream_per_event, C17_publisher_order, _precedes, C17_publisher_order_qos2, C17_qos2_fifo, C17_qos2_release_step). Tied by concurrent delivery runs "
+         "on the real broker (2-8 unserialised publishers, packets wrapping a 16 KiB ring, strict reference parse, sequence numbers) and the broker correspondence. "
+         "PARTIAL: the ring's own wrap/blocking is Core D; that every committed packet is well-formed MQTT is C03; that no write bypasses wmu is C18; Len()-vs-Encode() "
+         "length mismatch (A2) belongs to C03.")
